@@ -27,8 +27,9 @@ RULE = (
     "for every target kind (size+sha256+sha512, the same with one inconsistent hash, sha256 only, size only, no "
     "checksums), attempt budget, number of URIs and pre-existing distfile state, every sequence of per-invocation "
     "outcomes (file left as is / emptied / proper prefix / oversized / right size wrong content / correct, each with "
-    "exit status 0 or 1) that the fetcher can consume is executed against the real fetch(); the observed trace is judged "
-    "for safety (returned path => file has the size and every checksum), liveness (a correct file left by any allowed "
+    "exit status 0, exit status 1 or death by a signal -- spawn status 2304 = SIGKILL << 8) that the fetcher can consume is executed against the real fetch(); the observed trace is judged "
+    "for safety (returned path => file has the size and every checksum; for a target without checksums: the file exists "
+    "and was not left by an invocation that did not exit 0), liveness (a correct file left by any allowed "
     "invocation is returned), budget (a failing fetch with only retryable states used min(attempts, URIs) invocations, "
     "never more than attempts) and resume (a too-small file is kept untouched and the resume command is the next one "
     "invoked).  A class is (target kind, result kind, resume used), plus the number of invocations consumed; distinct_nontrivial counts classes observed."
@@ -39,9 +40,11 @@ ASSUMPTIONS = [
     "design; only safety is judged from there on",
     "Excl: an empty file for a target without a size checksum (the statement does not say whether it is a failed "
     "checksum or a retryable download); treated like a checksum-failing file: safety only from there on",
-    "for targets without checksums an invocation exiting non-zero is taken to have left nothing usable (documented rule "
-    "in fetch/custom.py and its unit tests); whether such a file may be returned is not judged, and any file that "
-    "exists satisfies safety for these targets",
+    "relied upon: for targets without checksums an invocation that did not exit 0 (non-zero exit status or killed by a "
+    "signal) leaves nothing usable -- the documented rule in fetch/custom.py and its unit tests, since _verify cannot "
+    "detect a truncated download there; returning the file such an invocation left is a safety violation, and a file "
+    "that exists after an exit-0 invocation (or pre-exists) satisfies safety for these targets",
+    "death by signal is reported by snakeoil's spawn as signal << 8 (2304 for SIGKILL); the real-bash pass checks this encoding with a real `kill -KILL $$`",
     "Excl: which command (fetch or resume) is used when no file exists, and the order in which URIs are consumed "
     "(statement silent); each invocation is assumed to consume one URI, so min(attempts, URIs) is the invocation budget",
     "a 0-byte file of a target with a size is not counted as a 'resumable partial file' (resume clause judged only for a non-empty proper prefix)",
@@ -50,9 +53,9 @@ ASSUMPTIONS = [
 ]
 BOUNDS = {
     "quick": "5 target kinds x attempts 1-3 x URIs 1-3 x 6 pre-existing states x all consumable outcome sequences "
-    "(12 outcomes per invocation; 6 for targets without checksums); real-bash pass: 3 target kinds x attempts 2 x URIs 2 x pre {absent, partial} with a 4-outcome alphabet",
+    "(18 outcomes per invocation; 9 for targets without checksums); real-bash pass: 3 target kinds x attempts 2 x URIs 2 x pre {absent, partial} with a 5-outcome alphabet incl. one fetch command killed by SIGKILL",
     "thorough": "5 target kinds x attempts 1-4 x URIs 1-4 x 6 pre-existing states x all consumable outcome sequences; "
-    "real-bash pass: 3 target kinds x attempts 1-2 x URIs 1-2 x pre {absent, partial, correct} with an 8-outcome alphabet",
+    "real-bash pass: 3 target kinds x attempts 1-2 x URIs 1-2 x pre {absent, partial, correct} with a 9-outcome alphabet incl. one fetch command killed by SIGKILL",
 }
 
 # ----------------------------------------------------------------------------------------------------------------
@@ -74,6 +77,8 @@ STATES = ["absent", "empty", "partial", "corrupt", "oversize", "correct"]
 # an outcome is (effect, exit status); effect "nothing" leaves the distdir as it is
 EFFECTS = ["nothing", "empty", "partial", "corrupt", "oversize", "correct"]
 EFFECTS_NOCHK = ["nothing", "empty", "correct"]  # without checksums all non-empty contents are alike
+KILLED = 9 << 8  # what snakeoil's spawn returns for a child killed by SIGKILL
+STATUSES = (0, 1, KILLED)
 TARGETS = ["size+2hash", "inconsistent", "hash-only", "size-only", "none"]
 
 
@@ -97,7 +102,7 @@ def chksums_for(kind):
 
 def outcomes_for(kind):
     effs = EFFECTS_NOCHK if kind == "none" else EFFECTS
-    return [(e, x) for e in effs for x in (0, 1)]
+    return [(e, x) for e in effs for x in STATUSES]
 
 
 # ----------------------------------------------------------------------------------------------------------------
@@ -146,6 +151,9 @@ def judge(kind, attempts, nuris, trace, result, final_data, expected_path):
         if kind == "none":
             if final_data is None:
                 msgs.append(("safety", "returned a path but no file exists there"))
+            elif inv and inv[-1]["exit"] != 0 and inv[-1]["after"] is not None and final_data == inv[-1]["after"]:
+                how = "was killed by a signal" if inv[-1]["exit"] > 255 else f"exited {inv[-1]['exit']}"
+                msgs.append(("safety", f"target has no checksums and the last invocation {how} (status {inv[-1]['exit']}), yet the file it left was returned as fetched"))
         elif fin != "good":
             msgs.append(("safety", f"returned a path whose file is {fin} (size/checksums do not all match)"))
     # liveness / budget: only while no checksum-failing or arguable file has been offered
@@ -277,6 +285,7 @@ case $eff in
 esac
 if [[ -e $dest ]]; then printf %s "$(< "$dest")" > "$ctl/after.$n"; fi
 echo "$kind $uri $status" >> "$ctl/log"
+if (( status > 255 )); then kill -$((status >> 8)) $$; fi
 exit "$status"
 """
 
@@ -304,8 +313,8 @@ def run_real(root, kind, attempts, nuris, pre, seq):
         f.write(_SCRIPT)
     fo = custom.fetcher(
         distdir=distdir,
-        command=f"bash {ctl}/fetch.bash {ctl} fetch ${{URI}} ${{DISTDIR}}/${{FILE}}",
-        resume_command=f"bash {ctl}/fetch.bash {ctl} resume ${{URI}} ${{DISTDIR}}/${{FILE}}",
+        command=f"exec bash {ctl}/fetch.bash {ctl} fetch ${{URI}} ${{DISTDIR}}/${{FILE}}",
+        resume_command=f"exec bash {ctl}/fetch.bash {ctl} resume ${{URI}} ${{DISTDIR}}/${{FILE}}",
         userpriv=False,
         attempts=attempts,
     )
@@ -387,7 +396,7 @@ def _case(mode, kind, attempts, nuris, pre, seq, clause, msg):
 # ----------------------------------------------------------------------------------------------------------------
 # runner interface
 # ----------------------------------------------------------------------------------------------------------------
-REAL_ALPHA_Q = [("nothing", 1), ("partial", 1), ("corrupt", 0), ("correct", 0)]
+REAL_ALPHA_Q = [("nothing", 1), ("partial", 1), ("corrupt", 0), ("correct", 0), ("correct", KILLED)]
 REAL_ALPHA_T = REAL_ALPHA_Q + [("partial", 0), ("correct", 1), ("oversize", 0), ("empty", 1)]
 
 
@@ -415,6 +424,15 @@ def tasks(tier):
     return out
 
 
+def _check_signal_encoding():
+    """Seam validation: a really killed bash must be reported by the real spawn_bash as KILLED."""
+    from snakeoil.process.spawn import spawn_bash
+
+    got = spawn_bash("kill -KILL $$")
+    if got != KILLED:
+        raise RuntimeError(f"spawn_bash reports a SIGKILLed child as {got}, the scripted alphabet assumes {KILLED}")
+
+
 def _mkroot():
     return tempfile.mkdtemp(dir="/dev/shm", prefix=f"verif-{PROPERTY}-{os.getpid()}-")
 
@@ -427,6 +445,7 @@ def work(task):
         alphabet = REAL_ALPHA_Q if tier == "quick" else REAL_ALPHA_T
         if kind == "none":
             alphabet = [o for o in alphabet if o[0] in EFFECTS_NOCHK]
+        _check_signal_encoding()
     root = _mkroot()
     try:
         evals, classes, viol, maxdepth = explore(root, mode, kind, attempts, nuris, pre, alphabet)
